@@ -46,7 +46,7 @@ def run_check(tier, seed):
                 s.rule, s.th = 'sorry', Thm(c02.A, c02.A)
         op = r.choice(['add', 'add', 'remove', 'set', 'replace', 'replace'])
         planted = None
-        if op == 'replace' and r.random() < 0.6:
+        if op in ('replace', 'add', 'remove') and r.random() < 0.6:
             # plant a citation of an earlier line from INSIDE a later block (any depth), so that the
             # replacement has to reach into nested proofs
             flat = c02.all_shapes(shapes)
@@ -69,8 +69,20 @@ def run_check(tier, seed):
         positions = [pos for pos, _ in all_items(st.prf)]
         pos = r.choice(positions)
         if planted is not None and planted in positions:
-            pos = planted
-            run.stat('struct_op:replace-with-nested-citation')
+            if op == 'replace':
+                pos = planted
+            elif op == 'add':
+                # insert at or before the cited outer line (same level), so that the citation from inside the later block has to move with it
+                lvl = len(planted)
+                pos = planted[:lvl - 1] + (r.randint(0, planted[lvl - 1]),)
+            else:
+                # remove an uncited line before the cited one, if there is one
+                lvl = len(planted)
+                cands = [planted[:lvl - 1] + (k_,) for k_ in range(planted[lvl - 1])]
+                cands = [q for q in cands if q in positions and not any(tuple(p_.id) == q for _, it_ in all_items(st.prf) for p_ in it_.prevs)]
+                if cands:
+                    pos = r.choice(cands)
+            run.stat('struct_op:%s-with-nested-citation' % op)
         try:
             if op == 'add':
                 k = r.choice([1, 1, 2, 3])
@@ -322,7 +334,43 @@ def cut_use_close_family(run, r, n):
                 check_state(run, state, goal, name, '%s: step %d %s' % (label, k, step['method_name']))
                 run.count(('cuc', text, label, k), nontrivial=True)
                 done += 1
-    return dict(goals=n, steps=done)
+    # second scenario: the cut fact is used inside a block opened later, then lines are inserted BEFORE the cut line
+    # (an earlier gap is worked on), so that the citation from inside the block has to follow the renumbering
+    for _ in range(n):
+        X, Y, Z = r.sample(['A', 'B', 'C', 'D'], 3)
+        text = '%s & %s --> %s & (%s --> %s & %s)' % (X, Y, Y, Z, X, Z)
+        first = [{'method_name': 'apply_backward_step', 'goal_id': '1', 'theorem': 'conjI'},
+                 {'method_name': 'cut', 'goal_id': '2', 'goal': X},
+                 {'method_name': 'introduction', 'goal_id': '3'},
+                 {'method_name': 'apply_backward_step', 'goal_id': '3.1', 'theorem': 'conjI'}]
+        back1 = {'method_name': 'apply_forward_step', 'goal_id': '1', 'fact_ids': ['0'], 'theorem': 'conjD2'}
+        back2 = {'method_name': 'apply_forward_step', 'goal_id': '2', 'fact_ids': ['0'], 'theorem': 'conjD1'}
+        extra = {'method_name': 'cut', 'goal_id': '1', 'goal': '%s --> %s' % (Z, Z)}
+        tails = [[back1, back2], [extra, back1], [extra, extra]]
+        steps = first + r.choice(tails)
+        try:
+            context.set_context('logic_base', vars={'A': BoolType, 'B': BoolType, 'C': BoolType, 'D': BoolType})
+            goal_t = parser.parse_term(text)
+            state = server.parse_init_state(goal_t)
+            goal = Thm(goal_t)
+        except RecursionError:
+            raise
+        except Exception as e:
+            run.stat('cuc2_setup_exc:' + type(e).__name__)
+            continue
+        name = 'generated.%s' % text
+        for k, step in enumerate(steps):
+            try:
+                method.apply_method(state, step)
+            except RecursionError:
+                raise
+            except Exception as e:
+                run.stat('cuc2_step_exc:%s:%s' % (step['method_name'], type(e).__name__))
+                break
+            check_state(run, state, goal, name, 'use the cut inside a later block, then edit before it: step %d %s at %s' % (k, step['method_name'], step['goal_id']))
+            run.count(('cuc2', text, k, step['method_name']), nontrivial=True)
+            done += 1
+    return dict(goals=2 * n, steps=done)
 
 
 def check_state(run, state, goal, name, where, structural_only=False):
